@@ -18,7 +18,8 @@ Lemma quiesce_reach rel : forall fuel s, reachable_from s (quiesce fuel rel s).
 Proof.
   induction fuel as [|f IH]; intros s; cbn [quiesce]; [apply rf_refl|].
   destruct (removers s); [destruct (queued s)|].
-  - destruct (find (fun k => mem_n k rel) (inflight s)) as [k|]; [eapply rf_trans; [apply rf_try | apply IH]|].
+  - destruct (zombies s); [|eapply rf_trans; [apply rf_try | apply IH]].
+    destruct (find (fun k => mem_n k rel) (inflight s)) as [k|]; [eapply rf_trans; [apply rf_try | apply IH]|].
     destruct (alive s); [apply rf_refl|]. destruct (waiters s); [|eapply rf_trans; [apply rf_try | apply IH]].
     destruct (reader s); [eapply rf_trans; [apply rf_try | apply IH] | apply rf_refl].
   - eapply rf_trans; [apply rf_try | apply IH].
@@ -26,7 +27,11 @@ Proof.
 Qed.
 
 Lemma apply_op_reach o rel s : reachable_from s (snd (apply_op o rel s)).
-Proof. destruct o; cbn; try apply rf_try. apply rf_refl. Qed.
+Proof.
+  destruct o as [n src k| | | | | | | |]; cbn; try apply rf_try; try apply rf_refl.
+  destruct k as [| | |[| | |]| |]; cbn; try apply rf_try.
+  eapply rf_trans; [apply rf_try | eapply rf_trans; apply rf_try].
+Qed.
 
 Theorem model_snaps_reach : forall ops rel gs s, reachable_from s (snd (model_snaps ops rel gs s)).
 Proof.
